@@ -6,6 +6,7 @@
 //!                                                              no handler; forms T and P only)
 //!        K <kind> <prefix> <key> <arg>                       (standalone constructors)
 //!        F <bits>;<bits>;...                                 (std Display text of f64 bit patterns)
+//!        V user:<variant>:<values>                           (Display of a MetricValue: ok:<hex> | panic)
 //!   strings are hex ("_" = empty); "~" = None; "-" = empty list
 //!   dtags  = comma list of k<hex>:<hex> | v<hex>
 //!   script = comma list of a | r<kind index>.<payload id>     (exhausted = accept)
@@ -578,6 +579,19 @@ fn run_k(t: &[&str]) -> String {
     }
 }
 
+/// `V user:<variant>:<values>`: the Display text of a `cadence::ext::MetricValue` (a public type with a public impl):
+/// the values joined by ':' - nothing for an empty packed list
+fn run_v(t: &[&str]) -> String {
+    let v = match parse_arg(t[1]) {
+        Arg::User(UserVal(v)) => v,
+        _ => panic!("V needs a user: argument"),
+    };
+    match catch(|| format!("{}", v)) {
+        Ok(s) => format!("ok:{}", hex0(s.as_bytes())),
+        Err(_) => "panic".to_string(),
+    }
+}
+
 /// std's Display text of f64 bit patterns (std, not cadence), with the checks of the float
 /// hypothesis of the model: non-empty, free of the six delimiters, and — for finite values —
 /// parsing back to the bit-identical number.
@@ -603,6 +617,7 @@ pub fn run_case(line: &str) -> String {
         "X" | "Y" | "XN" => run_x(&t),
         "K" => run_k(&t),
         "KF" => run_kf(&t),
+        "V" => run_v(&t),
         "XT" => run_xt(),
         "F" => run_f(&t),
         _ => panic!("bad wire case"),
